@@ -11,6 +11,8 @@ import (
 	"bytes"
 	"encoding/json"
 	"fmt"
+	"os"
+	"path/filepath"
 	"runtime"
 	"runtime/debug"
 	"time"
@@ -47,9 +49,9 @@ func measureDec(b []byte) (decOut, uint64) {
 }
 
 type replay struct {
-	Kind  string   `json:"kind"` // roundtrip | json | decode | http | p2p
-	Msg   *MsgDesc `json:"msg,omitempty"`
-	Input string   `json:"input,omitempty"` // hex, decoder input
+	Kind  string    `json:"kind"` // roundtrip | json | decode | http | p2p
+	Msg   *MsgDesc  `json:"msg,omitempty"`
+	Input string    `json:"input,omitempty"` // hex, decoder input
 	HTTP  *httpCase `json:"http,omitempty"`
 }
 
@@ -61,12 +63,30 @@ type ctx struct {
 // ---------------------------------------------------------------------------
 // direct oracles on one structured message; returns "" or the failure kind
 
+// withinCaps: the size caps the decoder applies (cbor-gen's constants and ReadCid's
+// 512); a message within them must be accepted by the encoder.
+func withinCaps(m message.Message) bool {
+	if !m.Cid.Defined() || m.Cid.ByteLen()+1 > 512 || len(m.Addrs) > cbg.MaxLength ||
+		len(m.ExtraData) > cbg.ByteArrayMaxLen || len(m.OrigPeer) > cbg.MaxLength {
+		return false
+	}
+	for _, a := range m.Addrs {
+		if len(a) > cbg.ByteArrayMaxLen {
+			return false
+		}
+	}
+	return true
+}
+
 func oracleRoundTrip(m message.Message) (string, string) {
 	e := runEnc(&m)
 	if e.Panicked != "" {
 		return "encode-panic", e.Panicked
 	}
 	if e.Err != nil {
+		if withinCaps(m) {
+			return "encoder-refuses-message-within-caps", e.Err.Error()
+		}
 		return "", "" // outside the encoder's caps
 	}
 	d := runDec(e.Bytes)
@@ -483,6 +503,12 @@ func main() {
 	c.Res.Rule = "structured messages (CIDv0/v1 over 8 hash/codec shapes incl. identity digests across the decoder's 512-byte CID cap; nil/empty/0..40 addresses of 0..300 B; extra data nil/empty/0..5000 B; origin absent / peer ID / arbitrary bytes; every cap at n-1,n,n+1) are encoded by the real MarshalCBOR (byte-exact against the model) and round-tripped through CBOR and JSON; each valid encoding seeds a malformed stream (every truncation for small messages, truncation at/inside every head, bit flips, per head: hostile values 2^32, 2^63, 2^64-1, cap, cap+1; every longer non-canonical form; reserved info 28..31; every other major type; field counts; tag values; CID prefix/length damage; trailing bytes; 3<->4 fields) decoded by the real UnmarshalCBOR under recover with a TotalAlloc delta; both senders are run end to end. Non-trivial = an encoding with at least one non-empty field, a malformed input (by kind, error class and length), or a malformed input the decoder accepts."
 
 	if c.Replay != "" {
+		// the driver runs us in /verif/harness; accept a path relative to /verif too
+		if _, err := os.Stat(c.Replay); err != nil && !filepath.IsAbs(c.Replay) {
+			if _, err2 := os.Stat(filepath.Join("..", c.Replay)); err2 == nil {
+				c.Replay = filepath.Join("..", c.Replay)
+			}
+		}
 		c.runReplay()
 		return
 	}
